@@ -1017,7 +1017,7 @@ def equivalent_docs_cases(tier):
     return ["nullable-30-vs-typelist", "nullable-ref-allof", "wrapper-allof", "wrapper-oneof", "wrapper-anyof", "json-vs-yaml",
             "nullable-model-oneof", "null-enum-param-shared", "wrapper-with-default", "same-ref-twice-in-union",
             "union-of-wrappers", "null-enum-component-shared", "nullable-enum-with-null-30-vs-31", "nullable-redeclared-in-allof",
-            "multipart-body-wrapper"]
+            "multipart-body-wrapper", "nullable-typed-allof-ref"]
 
 
 def equivalent_docs(case):
@@ -1041,6 +1041,10 @@ def equivalent_docs(case):
     elif case == "nullable-model-oneof":
         d1 = doc({"p": {"oneOf": [ref, {"type": "string"}], "nullable": True}})
         d2 = doc({"p": {"oneOf": [ref, {"type": "string"}, {"type": "null"}]}})
+    elif case == "nullable-typed-allof-ref":
+        # `type: object` next to the reference of an object component says nothing new: nullable must survive it
+        d1 = doc({"p": {"type": "object", "nullable": True, "allOf": [ref]}}, version="3.0.3")
+        d2 = doc({"p": {"nullable": True, "allOf": [ref]}}, version="3.0.3")
     elif case == "multipart-body-wrapper":
         # request bodies (multipart and json) and a response written as one-element wrappers around the reference
         def paths(sch):
